@@ -26,6 +26,8 @@ struct Obj {
 enum Fault {
     None,
     Status(u16),
+    /// an error status whose body is long and carries multi-byte and invalid UTF-8 sequences
+    StatusLongBody(u16, u64),
     SendError,
     BodyCut(usize),
     /// listing: XML cut at byte k
@@ -76,6 +78,22 @@ impl Backend for Bucket {
                     ReqKind::Get { key } => Some(key),
                     _ => None,
                 })
+            }
+            Fault::StatusLongBody(s, seed) => {
+                let mut r = crate::rng::Rng::new(*seed);
+                let n = 600 + r.below(3000) as usize;
+                let mut body: Vec<u8> = b"<?xml version=\"1.0\" encoding=\"UTF-8\"?><Error><Code>InternalError</Code><Message>".to_vec();
+                while body.len() < n {
+                    match r.below(5) {
+                        0 => body.extend_from_slice("é".as_bytes()),
+                        1 => body.extend_from_slice("雷達".as_bytes()),
+                        2 => body.extend_from_slice("🌩".as_bytes()),
+                        3 => body.push(0x80 + r.below(0x7F) as u8),
+                        _ => body.push(b'a' + r.below(26) as u8),
+                    }
+                }
+                body.extend_from_slice(b"</Message></Error>");
+                return Reply::Raw { status: *s, body };
             }
             Fault::SendError => return Reply::SendError,
             _ => {}
@@ -291,7 +309,14 @@ fn draw_fault(tape: &mut Tape, listing: bool) -> Fault {
         }
     } else {
         match tape.weighted(&[0, 3, 1, 2, 1]) {
-            1 => Fault::Status([500u16, 503, 403, 301, 400, 201, 204, 206][tape.draw(8) as usize]),
+            1 => {
+                let st = [500u16, 503, 403, 301, 400, 201, 204, 206][tape.draw(8) as usize];
+                if tape.draw(3) == 2 {
+                    Fault::StatusLongBody(st, tape.seed())
+                } else {
+                    Fault::Status(st)
+                }
+            }
             2 => Fault::SendError,
             3 => Fault::BodyCut(tape.draw(5000) as usize),
             _ => Fault::BadLastModifiedHeader(tape.draw(2) == 0),
@@ -338,7 +363,7 @@ impl Check for C17 {
                "stub": ["reqwest client + TLS + TCP + S3 (in-process endpoint behind the reqwest::get seam)"]})
     }
     fn required_probes(&self, _tier: Tier) -> Vec<&'static str> {
-        vec!["call.list_files", "call.download_file", "call.list_chunks", "call.download_chunk", "truncated_archive_listing", "key_with_xml_special", "key_with_non_ascii", "key_with_slash_in_name", "not_found_download", "fault.status", "fault.send_error", "fault.body_cut", "fault.xml_cut", "fault.bad_size", "fault.bad_last_modified", "fault.extra_elements", "fault.bad_last_modified_header", "listing_1000", "listing_1001", "short_truncated_page"]
+        vec!["call.list_files", "call.download_file", "call.list_chunks", "call.download_chunk", "truncated_archive_listing", "key_with_xml_special", "key_with_non_ascii", "key_with_slash_in_name", "not_found_download", "fault.status", "fault.status_long_body", "fault.send_error", "fault.body_cut", "fault.xml_cut", "fault.bad_size", "fault.bad_last_modified", "fault.extra_elements", "fault.bad_last_modified_header", "listing_1000", "listing_1001", "short_truncated_page"]
     }
     fn budget_s(&self, tier: Tier) -> u64 {
         match tier {
@@ -523,6 +548,7 @@ impl Check for C17 {
             let fname = match fault {
                 Fault::None => "none",
                 Fault::Status(_) => "status",
+                Fault::StatusLongBody(..) => "status_long_body",
                 Fault::SendError => "send_error",
                 Fault::BodyCut(_) => "body_cut",
                 Fault::XmlCut(_) => "xml_cut",
@@ -534,6 +560,7 @@ impl Check for C17 {
             match fault {
                 Fault::None => {}
                 Fault::Status(_) => ctx.count("fault.status"),
+                Fault::StatusLongBody(..) => ctx.count("fault.status_long_body"),
                 Fault::SendError => ctx.count("fault.send_error"),
                 Fault::BodyCut(_) => ctx.count("fault.body_cut"),
                 Fault::XmlCut(_) => ctx.count("fault.xml_cut"),
@@ -771,7 +798,7 @@ fn judge_download(ctx: &mut Ctx, what: &str, fault: &Fault, exists: bool, obj: O
         ctx.nontrivial = true;
     }
     match fault {
-        Fault::Status(s) => {
+        Fault::Status(s) | Fault::StatusLongBody(s, _) => {
             // any status other than 200 is an error; 404 is the not-found error
             match r {
                 Ok(_) => ctx.violate("non-200-is-error", format!("{}:{}", what, s), format!("{} returned Ok on HTTP {}", what, s)),
